@@ -41,6 +41,10 @@ def classify(c):
         # both sides wrote identical bytes and one also renamed: the silent equal-content merge records the current
         # paths as synced and the rename is never propagated
         return "G7-equal-content-merge-swallows-rename"
+    if c["property"] == "C14" and job.get("base") == "B4":
+        # a name is re-used by a different object (folder renamed away / deleted, then a new object created under the old
+        # name) and the old object's events are delivered late, duplicated or after the new object's create event
+        return "G11-name-reuse-with-late-events"
     if c["property"] == "C12":
         allops = [op for _, op in ops]
         if kind == "outside-modified":
